@@ -4,12 +4,16 @@ from concurrent.futures import ThreadPoolExecutor
 import vf
 
 
-def launch(gram, cmd, path, timeout=20):
-    try:
-        r = subprocess.run([gram, cmd, path], stdout=subprocess.PIPE, stderr=subprocess.PIPE, timeout=timeout)
-        return r.returncode, r.stdout, r.stderr
-    except subprocess.TimeoutExpired as e:
-        return -999, e.stdout or b"", e.stderr or b""
+def launch(gram, cmd, path, timeout=30):
+    # a launch that does not finish is tried once more with a much longer limit: on a saturated machine a slow launch must not
+    # be mistaken for a hang (-999 is reported only when the second, long, attempt does not finish either)
+    for limit in (timeout, timeout * 20):
+        try:
+            r = subprocess.run([gram, cmd, path], stdout=subprocess.PIPE, stderr=subprocess.PIPE, timeout=limit)
+            return r.returncode, r.stdout, r.stderr
+        except subprocess.TimeoutExpired as e:
+            last = e
+    return -999, last.stdout or b"", last.stderr or b""
 
 
 def event(fid, cmd, rc, out, err, divergent=False):
